@@ -53,6 +53,33 @@ func (lam *Lambda) Call(s *Scope, args List, depth int) (result Object) {
 		rest    List
 		restSym Symbol
 	)
+	// bindKeys takes the remaining arguments as keyword and value pairs.
+	bindKeys := func() {
+		keyArgs := args[ai:]
+		for ai < len(args) {
+			a := args[ai]
+			ai++
+			if sym, ok := a.(Symbol); ok && 0 < len(sym) && sym[0] == ':' {
+				sym = sym[1:]
+				if len(args) <= ai {
+					ErrorPanic(s, depth, "Missing value for key :%s.", sym)
+				}
+				// Only a &key parameter is bound, a keyword must not
+				// overwrite some other variable of the same name. If a
+				// keyword is given more than once the first counts.
+				if lam.Doc.getKeyArg(string(sym)) == nil {
+					if !lam.Doc.otherKeyAllowed(string(sym), keyArgs) {
+						ProgramPanic(s, depth, "%s is not a keyword parameter of %s.", a, lam)
+					}
+				} else if !bound(string(sym)) {
+					ss.Let(sym, args[ai])
+				}
+				ai++
+				continue
+			}
+			TypePanic(s, depth, "keyword to function", a, "symbol")
+		}
+	}
 Aux:
 	for _, ad := range lam.Doc.Args {
 		if len(args) <= ai {
@@ -67,7 +94,10 @@ Aux:
 			case AmpRest, AmpBody:
 				mode = restMode
 			case AmpKey:
+				// All the remaining arguments are keyword arguments, also
+				// when no parameter follows &key.
 				mode = keyMode
+				bindKeys()
 			case AmpAux: // should not be possible to get here without an error later
 				break Aux
 			case AmpAllowOtherKeys:
@@ -82,6 +112,7 @@ Aux:
 				mode = restMode
 			case AmpKey:
 				mode = keyMode
+				bindKeys()
 			case AmpAux:
 				break Aux
 			case AmpAllowOtherKeys:
@@ -109,30 +140,7 @@ Aux:
 				rest = append(rest, a)
 			}
 		case keyMode:
-			keyArgs := args[ai:]
-			for ai < len(args) {
-				a := args[ai]
-				ai++
-				if sym, ok := a.(Symbol); ok && 0 < len(sym) && sym[0] == ':' {
-					sym = sym[1:]
-					if len(args) <= ai {
-						ErrorPanic(s, depth, "Missing value for key :%s.", sym)
-					}
-					// Only a &key parameter is bound, a keyword must not
-					// overwrite some other variable of the same name. If
-					// a keyword is given more than once the first counts.
-					if lam.Doc.getKeyArg(string(sym)) == nil {
-						if !lam.Doc.otherKeyAllowed(string(sym), keyArgs) {
-							ProgramPanic(s, depth, "%s is not a keyword parameter of %s.", a, lam)
-						}
-					} else if !bound(string(sym)) {
-						ss.Let(sym, args[ai])
-					}
-					ai++
-					continue
-				}
-				TypePanic(s, depth, "keyword to function", a, "symbol")
-			}
+			bindKeys()
 		}
 	}
 	if ai < len(args) {
